@@ -3,13 +3,14 @@
 (* The twenty properties C01..C20 as predicates over explicit state        *)
 (* records; dispatch for the trace spec (CheckStepP) and accumulators.     *)
 (***************************************************************************)
-EXTENDS PropsPanic, PropsRisk, PropsAuth
+EXTENDS PropsPanic, PropsAdmin, PropsAuth
 
-Acc0 == [c15 |-> C15Acc0, c02 |-> C02Acc0, c07 |-> C07Acc0]
+Acc0 == [c15 |-> C15Acc0, c02 |-> C02Acc0, c07 |-> C07Acc0, c12 |-> C12Acc0]
 AccNext(acc, pre, e, post) ==
   [c15 |-> C15AccNext(acc.c15, pre, e, post),
    c02 |-> C02AccNext(acc.c02, pre, e, post),
-   c07 |-> C07AccNext(acc.c07, pre, e, post)]
+   c07 |-> C07AccNext(acc.c07, pre, e, post),
+   c12 |-> C12AccNext(acc.c12, pre, e, post)]
 
 \* invariants evaluated on a freshly reset state
 CheckInvP(want, s, e, line) == TRUE
@@ -29,4 +30,6 @@ CheckStepP(want, pre, e, post, acc, line) ==
   /\ (want["C09"]) => C09(pre, e, post, line)
   /\ (want["C13"]) => C13(pre, e, post, line)
   /\ (want["C08"]) => C08(pre, e, post, line)
+  /\ (want["C12"]) => C12(pre, e, post, acc.c12, line)
+  /\ (want["C19"]) => C19(pre, e, post, line)
 =============================================================================
